@@ -52,6 +52,7 @@ def run(ctx):
     nvals = 8 if ctx.quick else 25
     mods = gen_bundles(ctx, nb)
     fails = collections.Counter()
+    notbuilt = []
     skipped = collections.Counter()
     gfind.replay_witnesses(ctx)
     samples = {}
@@ -67,10 +68,10 @@ def run(ctx):
             exe = b.build()
         except bundle.Asn1cFailed as e:
             ctx.log("asn1c rejected generated module:", e.out.strip().split("\n")[0][:200])
-            fails[("asn1c", e.out.strip().split("\n")[0][:60], "")] += 1
+            notbuilt.append(("asn1c", e.out.strip().split("\n")[0][:100]))     # C10's subject, not a C01 violation
             b.cleanup(); continue
         except build.BuildError as e:
-            fails[("cc", str(e)[:80], "")] += 1
+            notbuilt.append(("cc", str(e)[:100]))
             b.cleanup(); continue
         built += 1
         vg = genmod.ValGen(ctx.rng, env)
@@ -127,7 +128,7 @@ def run(ctx):
                 ctx.count_nontrivial((kind, tn, sx[:80]))
         b.cleanup()
     ctx.cov["evaluations"] += total
-    ctx.cov["predicate"]["roundtrip"] = {"modules_built": built, "cases": total, "failure_classes": len(fails), "skipped_known_regions": dict(skipped), "F30_xer_newline": f30}
+    ctx.cov["predicate"]["roundtrip"] = {"modules_built": built, "cases": total, "failure_classes": len(fails), "skipped_known_regions": dict(skipped), "F30_xer_newline": f30, "modules_not_built": notbuilt}
     # K leg: the L2 Lean model (subject of the theorems) vs C on DER/BER
     from . import c02
     kcases = []
